@@ -975,7 +975,10 @@ def _run_model(case, ctx):
     if ntr > 1:
         ctx.nontrivial = True
     gen = sut.model().generate_waveform
-    tol = 1e-9 if sdt == "f8" else 1e-5  # float32 spike = closed form rounded to 6e-8 x amplitude (measured 5.5e-7)
+    # a float32 spike is the closed form rounded to 6e-8 of its amplitude; that noise also enters the delay fitted from the
+    # 1-cycle component, and a component of f cycles magnifies a delay error f times: bound 6e-8 * (sum of amplitudes /
+    # first amplitude <= 25) * n/2 = 2e-4 at n = 256 (measured: 2.6e-6 over the 118 000 cases of a thorough run)
+    tol = 1e-9 if sdt == "f8" else 2e-4
 
     def hold(a, layout="C"):
         if a is None:
